@@ -459,9 +459,10 @@ def normalize(img, scale_func=None, mode="all", error_on_divide_by_zero=True):
             "entries will be skipped during normalization."
         )
         non_zero_denom = ~zero_denom
-        centered_pixels[non_zero_denom] = (
-            centered_pixels[non_zero_denom] / scale_factor[non_zero_denom]
-        )
+        if mode == "per_channel":
+            centered_pixels[non_zero_denom] = (
+                centered_pixels[non_zero_denom] / scale_factor[non_zero_denom]
+            )
         return img.from_vector(centered_pixels)
     else:
         return img.from_vector(centered_pixels / scale_factor)
